@@ -441,7 +441,7 @@ package git
 //@ property C13: (*Repository).GitCommand (*Repository).IsFull NewRepositoryFromGitDir (*Repository).GitPath
 //@ property C17: (*Repository).GitCommand (*Repository).GetConfig (*Repository).GitPath (*Repository).ConfigStringDefault (*Repository).ConfigBoolDefault (*Repository).ConfigIntDefault (*Repository).ResolveObject (*Repository).NewObjectIter (*Repository).NewBatchObjectIter (*Repository).NewReferenceIter
 //@ property C13: structural/exec-command-sites
-//@ property C17: structural/exec-command-sites structural/gitcommand-callers structural/no-write-apis structural/no-map-iteration structural/atomic-consistency structural/no-shared-globals
+//@ property C17: structural/exec-command-sites structural/gitcommand-callers structural/no-write-apis structural/no-map-iteration structural/atomic-consistency structural/no-shared-globals structural/sent-buffers-fresh
 //@ property C01: (*Repository).NewObjectIter (*Repository).NewBatchObjectIter (*Repository).NewReferenceIter
 //@ property C03: (*Repository).NewObjectIter
 //@ property C09: (*Repository).NewObjectIter (*Repository).NewBatchObjectIter structural/no-map-iteration
